@@ -27,9 +27,52 @@ LOCK = "Oomd::Log::AsyncLogState::lock"
 GUARDED = ("ioTick", "ioThreadRunning", "curSize", "numDiscarded", "queues")
 
 
+def nothing_logs_before_log_init(ctx):
+    """The process-wide logger is a function-local static: the FIRST Log::get fixes its kmsg descriptor and its mode (inline / queued) for
+    the life of the process, and a later Log::init quietly gets that object back.  So in main() nothing that can reach the logger runs
+    before Log::init has: otherwise kmsg_fd stays -1 (the kill record falls back to OLOG, which silencing suppresses) and every line is
+    written inline from the calling thread (no backlog bound, no drop accounting)."""
+    P, cg = ctx.prog, ctx.cg
+    mains = [f for f in P.fns.values() if f.pq == "main"]
+    if len(mains) != 1:
+        ctx.broken("nothing-logs-before-Log::init", "anchor", "-", "function main not found")
+        return
+    main = ctx.use(mains[0])
+    inits = main.calls("Log::init")
+    ctx.counters["log_init_sites"] = len(inits)
+    ctx.floor("log_init_sites", 1, "Log::init call in main")
+    if not inits:
+        return
+    fl = Flow(P, main, cg=cg, events={i: [("set", "log-ready")] for i in inits})
+    sinks = {u for u, f in P.fns.items() if f.pq in ("Oomd::Log::get", "Oomd::LogStream::LogStream", "Oomd::Log::kmsgLog", "Oomd::Log::debugLog")}
+    ctx.counters["logger_entry_points"] = len(sinks)
+    ctx.floor("logger_entry_points", 3, "entry points of the logger (Log::get, LogStream, kmsgLog, debugLog)")
+    n = 0
+    for e in cg.out.get(main.usr, ()):
+        if not isinstance(e.node, int) or main.pos_of(e.node) is None or e.node in inits:
+            continue
+        if fl.must(e.node, "log-ready"):
+            continue
+        n += 1
+        hit = cg.reach([e.dst]) & sinks
+        if not hit:
+            continue
+        tgt = sorted(hit)[0]
+        ch = cg.path(e.dst, tgt) or []
+        ctx.violation("nothing-logs-before-Log::init:%s@%d" % (short(P.fns[e.dst]), main.nodes[e.node].get("line", 0)), "never_before + call-graph reachability (who-may-call)", main.loc(e.node),
+                      "main calls %s before Log::init has run on every path to it, and that call can reach the logger (%s): the first Log::get builds the process-wide "
+                      "logger with kmsg_fd=-1 in inline mode and Log::init's arguments are ignored afterwards - the kill record loses its kmsg path (and is "
+                      "suppressed by silencing), lines are written synchronously without the backlog bound"
+                      % (P.fns[e.dst].pq, P.fns[tgt].pq), ["%s -> %s at %s" % (P.fns[x.src].pq, P.fns[x.dst].pq, P.fns[x.src].loc(x.node) if isinstance(x.node, int) else "scope exit") for x in ch][:8])
+    ctx.counters["calls_before_log_init"] = n
+    ctx.floor("calls_before_log_init", 5, "call edges of main that can run before Log::init")
+    ctx.ok("nothing-logs-before-Log::init", "never_before + call-graph reachability (who-may-call)", main.loc(inits[0]), "%d call edges of main can run before Log::init; their closures were searched for the logger's entry points" % n)
+
+
 def run(ctx):
     # locals / parameters the rules below refer to by name (a rename makes the analysis 'broken', never a violation)
     P, cg = ctx.prog, ctx.cg
+    nothing_logs_before_log_init(ctx)
     LA = LockAnalysis(P, cg)
     dbg = ctx.fn1("Oomd::Log::debugLog")
     io = ctx.fn1("Oomd::Log::ioThread")
